@@ -60,6 +60,25 @@ func checkC09(w *World, r *Report) {
 	fns := w.pkgFuncs("lib/concurrent")
 	n := pairRule(w, r, e, "C09.pair", fns)
 	r.floor("C09.pair", "lock acquisitions and releases in lib/concurrent", n, 6)
+	r.rule("C09.version-width", "the counter that tells swap! whether the atom changed since it was read is a 64-bit integer: it cannot come round to the value read while one update function runs (with a narrow counter 2^k intervening updates make a stale result install itself over them)")
+	{
+		ok64, tname := false, "?"
+		if p := w.ByPath[modPath+"/lib/concurrent"]; p != nil && p.Types != nil {
+			if obj := p.Types.Scope().Lookup("Atom"); obj != nil {
+				if st, ok := obj.Type().Underlying().(*types.Struct); ok {
+					for i := 0; i < st.NumFields(); i++ {
+						if st.Field(i).Name() == w.roles().atomVersion {
+							tname = st.Field(i).Type().String()
+							if bt, ok := st.Field(i).Type().Underlying().(*types.Basic); ok && (bt.Kind() == types.Uint64 || bt.Kind() == types.Int64) {
+								ok64 = true
+							}
+						}
+					}
+				}
+			}
+		}
+		r.check(ok64, "C09.version-width", nil, "type of the atom's version counter", token.NoPos, tname, "the version counter is a "+tname+": it wraps around after few updates, and an update function that runs while exactly that many updates land finds 'its' version again and overwrites them all")
+	}
 	r.rule("C09.no-reentry", "no function of lib/concurrent acquires a mutex it already holds, or calls with the lock held a function that acquires the mutex of the same object (sync.RWMutex is not re-entrant even for readers: deref, swap! and reset! on that atom would block forever once a writer queues in between)")
 	nre := reentryRule(w, r, e, "C09.no-reentry", fns)
 	r.floor("C09.no-reentry", "calls and acquisitions made with a lock held in lib/concurrent", nre, 1)
@@ -768,9 +787,9 @@ func checkC10(w *World, r *Report) {
 	singleOutcomeRule(w, r, e, "C10.single-outcome")
 	doneFlagRule(w, r, e, "C10.done-flag")
 	derefContextRule(w, r, "C10.deref-context")
-	r.rule("C10.body-context", "every evaluation lib/concurrent starts runs under the context its function was given or a child of it, never under one captured from an enclosing activation in its place: the body of a future runs under the very context that future-cancel cancels (shared with C07.derive)")
+	r.rule("C10.body-context", "every evaluation the library starts runs under the context its function was given or a child of it - never under a fresh one, never under one captured from an enclosing activation in its place: the body of a future runs under the very context that future-cancel cancels, and a deref reached from any form (a finally body included) waits under the context of the evaluation that contains it (shared with C07.derive)")
 	if m10 := newEvalModel(w, e); m10.ok {
-		nbc := ctxDeriveRule(w, r, e, m10, "C10.body-context", func(f *ssa.Function) bool { return fnPkgPath(f) == modPath+"/lib/concurrent" })
+		nbc := ctxDeriveRule(w, r, e, m10, "C10.body-context", nil)
 		r.floor("C10.body-context", "contexts handed to evaluating calls in lib/concurrent", nbc, 2)
 	} else {
 		r.undecided("C10.body-context", nil, "evaluator model", token.NoPos, m10.why)
@@ -1059,7 +1078,7 @@ func checkC11(w *World, r *Report) {
 	// shared globals that are atoms: a swap! retried because another evaluation got in first computes what it
 	// computes alone (the library's memoize, gensym and counters rest on it)
 	r.include("C11.atom-", "C09.", "an evaluation that updates a shared atom with swap! gets f(current, args...) also when it has to retry", checkC09, func(rule string) bool {
-		return rule == "C09.rmw" || rule == "C09.install"
+		return rule == "C09.rmw" || rule == "C09.install" || rule == "C09.version" || rule == "C09.guard"
 	})
 	r.rule("C11.no-reentry", "no function of package env acquires a scope's mutex while it already holds it, or calls with the lock held a function that locks the same scope (sync.RWMutex is not re-entrant even for readers: concurrent evaluations on the shared environment would block each other forever)")
 	nre := reentryRule(w, r, e, "C11.no-reentry", w.pkgFuncs("env"))
